@@ -467,3 +467,260 @@ def oracle_c02_dup(scn, res):
                       'detail': None})
 
     return viols, outcome(res)
+
+
+# ---- C04: bounded buffering ---------------------------------------------------------------------------------------------
+
+C04_BOUND = 9         # "single digits"
+C04_SETTLE = 700      # ms after the stall starts by which every producer must have stopped ("and then waits, however long")
+
+
+def check_stall(scn, res):
+    viols = []
+    fam   = family(scn)
+    fs    = fdict(scn)
+    stalls = [e for e in res.log if e['ev'] == 'process' and 'stall' in e]
+
+    if not stalls:
+        return [{'signature': f'C04/harness-no-stall/{fam}', 'what': f'[{scn.get("name")}] the scripted stall never happened (stop={res.reason})', 'detail': None}]
+
+    e      = stalls[0]
+    t0, S  = e['stall']
+    t1     = e.get('stall_end', t0 + S)
+    victim = e['f']
+    ct     = scn.get('conn_timeout') or 5000
+
+    # producers feeding the victim (transitively upstream)
+    ups, todo = set(), [victim]
+
+    while todo:
+        for up, eph, _, _ in sources_of(fs[todo.pop()]):
+            if eph == 0 and up not in ups:
+                ups.add(up)
+                todo.append(up)
+
+    if S >= ct:
+        return viols      # longer than the connection timeout: the producer is allowed to move on
+
+    for up in sorted(ups):
+        pubs = [(t, info[2]) for t, ev, label, info, seq in res.wire
+                if ev == 'pub' and info[0] == 'pub' and info[1] == up and info[3] == '//' and (info[2] or 0) >= 0]
+        during = [p for p in pubs if t0 < p[0] < t1]
+        late   = [p for p in during if p[0] > t0 + C04_SETTLE]
+
+        if len(during) > C04_BOUND:
+            viols.append({'signature': f'C04/overrun/{fam}', 'what': f'[{scn.get("name")}] {up} published {len(during)} frames '
+                          f'(> {C04_BOUND}) while {victim} was stalled from {t0} to {t1} ms', 'detail': during[:20]})
+
+        if late:
+            viols.append({'signature': f'C04/keeps-publishing/{fam}', 'what': f'[{scn.get("name")}] {up} still published ids '
+                          f'{[p[1] for p in late][:8]} at {[p[0] for p in late][:8]} ms, more than {C04_SETTLE} ms into the stall of '
+                          f'{victim} ({t0}..{t1} ms): buffering grows with the stall length', 'detail': late[:20]})
+
+    # after the stall the victim takes strictly increasing ids again
+    after = [x for x in res.log if x['ev'] == 'process' and x['f'] == victim and x['t'] >= t1 and x is not e]
+
+    if res.now >= t1 + 400 and not after:
+        viols.append({'signature': f'C04/no-resume/{fam}', 'what': f'[{scn.get("name")}] {victim} received nothing in the {res.now - t1} ms after its stall ended', 'detail': None})
+
+    return viols
+
+
+def oracle_c04(scn, res):
+    return check_stall(scn, res) + check_order(scn, res) + check_sets(scn, res), outcome(res)
+
+
+# ---- C05: ephemeral listeners -----------------------------------------------------------------------------------------------
+
+def check_ephemeral(scn, res):
+    viols = []
+    fam   = family(scn)
+    fs    = fdict(scn)
+
+    def bad(kind, what, d=None):
+        viols.append({'signature': f'C05/{kind}/{fam}', 'what': f'[{scn.get("name")}] {what}', 'detail': d})
+
+    # (1) synchronized consumers see exactly what they would see without the listeners: the reference model of the pipeline with
+    #     every ephemeral source removed
+    sync_only = {'name': scn.get('name'), 'filters': []}
+    sync_names = []
+
+    for f in scn['filters']:
+        srcs = f.get('sources')
+
+        if srcs:
+            keep = [s for s, (up, eph, _, _) in zip(srcs, sources_of(f)) if eph == 0]
+
+            if not keep:
+                continue      # purely ephemeral consumer: not part of the synchronized stream
+
+            f = {**f, 'sources': keep}
+            sync_names.append(f['name'])
+
+        sync_only['filters'].append(f)
+
+    exp = reference_inputs(sync_only)
+    obs = {}
+
+    for e in res.log:
+        if e['ev'] == 'process' and e['f'] in sync_names:
+            srcs = {up: eph for up, eph, _, _ in sources_of(fs[e['f']])}
+            sel  = {t: (v['o'], v['seq']) for t, v in e['inp'].items()
+                    if e['tags'].get(t) is None or srcs.get(e['tags'][t][0][1], 0) == 0}
+            obs.setdefault(e['f'], []).append(sel)
+
+    for name in sync_names:
+        want = [w[1] for w in exp.get(name, [])]
+        got  = obs.get(name, [])
+
+        if want != got:
+            k = next((i for i, (a, b) in enumerate(zip(want, got)) if a != b), min(len(want), len(got)))
+            bad('sync-stream-changed', f'{name} saw {len(got)} synchronized sets, the listener-free reference says {len(want)}; first '
+                f'difference at {k}: got {got[k] if k < len(got) else None}, expected {want[k] if k < len(want) else None} (stop={res.reason})')
+
+    # (2) a '??' listener sends no flow-control traffic at all
+    for f in scn['filters']:
+        for up, eph, _, _ in sources_of(f):
+            if eph == 2:
+                sent = [w for w in res.wire if w[1] == 'snd' and w[2].startswith(f['name'] + '>>') and w[3][0] == 'req' and (w[3][2] is None or w[3][2] > -2)]
+
+                if sent:
+                    bad('doubly-ephemeral-requests', f'{f["name"]} (a ?? listener of {up}) sent {len(sent)} request messages: {sent[:3]}')
+
+    # (3) every set an ephemeral consumer receives is complete for its subscription; ids non-decreasing per ephemeral source
+    last = {}
+
+    for e in res.log:
+        if e['ev'] != 'recv':
+            continue
+
+        f    = fs[e['f']]
+        ephs = {up: spec for up, eph, spec, _ in sources_of(f) if eph > 0}
+
+        if not ephs:
+            continue
+
+        by_sid = {}
+
+        for tdst, tag in e['tags'].items():
+            if tag is not None:
+                by_sid.setdefault(tag[0][1], []).append(tag[0])
+
+        for sid, spec in ephs.items():
+            lst = by_sid.get(sid)
+
+            if not lst:
+                continue
+
+            mids = {i[2] for i in lst}
+
+            if len(mids) > 1:
+                bad('ephemeral-mixed-ids', f'{e["f"]} got frames of {sid} under ids {sorted(mids)} in one set')
+                continue
+
+            pub = lst[0][4] or ()
+            exp_t = subscribed(pub, spec)
+            got_t = {topic_name(i[3]) for i in lst}
+
+            if got_t != exp_t:
+                bad('ephemeral-partial-set', f'{e["f"]} got topics {sorted(got_t)} of {sid} id {min(mids)}; published {list(pub)}, subscription selects {sorted(exp_t)}')
+
+            key = (e['f'], e['inc'], sid)
+            m   = min(mids)
+
+            if key in last and m < last[key]:
+                bad('ephemeral-order', f'{e["f"]} got id {m} of {sid} after id {last[key]}')
+
+            last[key] = m
+
+    return viols
+
+
+def sync_delivery_times(scn, res):
+    fs = fdict(scn)
+    out = []
+
+    for e in res.log:
+        if e['ev'] == 'process' and fs[e['f']].get('sources') and any(eph == 0 for _, eph, _, _ in sources_of(fs[e['f']])):
+            out.append((e['f'], e['k'], e['t']))
+
+    return out
+
+
+def oracle_c05(scn, res):
+    return check_ephemeral(scn, res) + check_sets(scn, res, restarts=True) + check_order(scn, res), outcome(res)
+
+
+# ---- C07: load balancing ------------------------------------------------------------------------------------------------------
+
+def check_balance(scn, res):
+    viols = []
+    fam   = family(scn)
+    fs    = fdict(scn)
+
+    def bad(kind, what, d=None):
+        viols.append({'signature': f'C07/{kind}/{fam}', 'what': f'[{scn.get("name")}] {what}', 'detail': d})
+
+    # each id published by a balancing publisher goes out on exactly one output
+    outs = {}
+
+    for t, ev, label, info, seq in res.wire:
+        if ev == 'pub' and info[0] == 'pub' and (info[2] or 0) >= 0 and info[3] == '//':
+            name = label.split('#')[0]
+
+            if (fs.get(name, {}).get('config') or {}).get('outputs_balance'):
+                outs.setdefault((label.split('@')[0], info[2]), []).append(label.split('@')[1])
+
+    for (who, mid), addrs in sorted(outs.items()):
+        if len(addrs) != 1:
+            bad('published-on-several-branches', f'{who} published id {mid} on {addrs}')
+
+    # worker inputs pairwise disjoint
+    seen = {}
+
+    for e in res.log:
+        if e['ev'] == 'process' and e['inp'] and e['f'][:1] == 'w' and e['f'][1:].isdigit():
+            for t, v in e['inp'].items():
+                k = (v['o'], v['i'], v['seq'])
+
+                if k in seen and seen[k] != e['f']:
+                    bad('frame-on-two-branches', f'frame {k} reached both {seen[k]} and {e["f"]}')
+
+                seen.setdefault(k, e['f'])
+
+    # the rejoined stream: no frame twice, strictly increasing, one id per set
+    last = {}
+
+    for e in res.log:
+        if e['ev'] == 'process' and e['inp'] and (fs[e['f']].get('config') or {}).get('sources_balance'):
+            seqs = {(v['o'], v['i'], v['seq']) for v in e['inp'].values()}
+
+            if len({s[2] for s in seqs}) > 1:
+                bad('rejoin-mixed', f'{e["f"]} got one set mixing frames {sorted(seqs)}')
+
+            mids = {tag[0][2] for tag in e['tags'].values() if tag is not None}
+
+            if len(mids) > 1:
+                bad('rejoin-mixed-ids', f'{e["f"]} got one set mixing ids {sorted(mids)}')
+
+            for o, i, sq in seqs:
+                key = (e['f'], e['inc'], o, i)
+
+                if key in last and sq <= last[key]:
+                    bad('rejoin-duplicate' if sq == last[key] else 'rejoin-out-of-order', f'{e["f"]} got seq {sq} of {o} after seq {last[key]}')
+
+                last[key] = max(sq, last.get(key, -1))
+
+    return viols
+
+
+def oracle_c07(scn, res):
+    return check_balance(scn, res) + check_order(scn, res), outcome(res)
+
+
+def oracle_c05_any(scn, res):
+    """Under arbitrary delays completeness by the horizon is not demanded; everything else is."""
+
+    v = [x for x in check_ephemeral(scn, res) if '/sync-stream-changed/' not in x['signature']]
+
+    return v + check_sets(scn, res, restarts=True) + check_order(scn, res), outcome(res)
